@@ -136,6 +136,24 @@ func (b *bRun) run(tasks []*vsched.G, maxSteps int) error {
 	return b.S.Run(done, b.choose, adv, maxSteps)
 }
 
+// runQuiet is run, continued until no managed goroutine is runnable any more: the
+// goroutines the tasks have set in motion are interleaved by the chooser as well.
+func (b *bRun) runQuiet(tasks []*vsched.G, maxSteps int) error {
+	done := func() bool {
+		for _, t := range tasks {
+			if !t.Done() {
+				return false
+			}
+		}
+		return b.S.Runnable() == 0
+	}
+	var adv func() time.Duration
+	if b.pAdv > 0 || b.replaying {
+		adv = b.advance
+	}
+	return b.S.Run(done, b.choose, adv, maxSteps)
+}
+
 // finish stores the recorded schedule in the case (so that a violation's case is
 // an exact replay file) and removes the scheduler.
 func (b *bRun) finish() {
